@@ -4,6 +4,8 @@ import LyModel.Valid.XpWitness
 import LyModel.Valid.XpTag
 import LyModel.Valid.XpCfg
 import LyModel.Valid.XpWhenSimple
+import LyModel.Valid.XpWhenIff
+import LyModel.Valid.XpLemmasW
 /-!
 # C02 — the XPath-dependent constraints: `must`, leafref `require-instance` (and `when`, modelled, see the end)
 
@@ -164,6 +166,53 @@ leafref and `must` phases evaluate on is the one before the phase -/
 theorem when_keeps_shape (X : SchemaX) (C : XCons) (o : VOpts) (T : List DNode) (h : (whenPhase X C o T).2.evs = []) :
     shapeL (whenPhase X C o T).1 = shapeL T :=
   whenPhase_shape X C o T h
+
+
+/-! ### the iff with `when`, on the class where nothing is deferred and no implicit node is removed -/
+
+/-- the accessible tree of the model (after the subtree walk) has the shape of the accessible tree of the specification -/
+theorem preFinal_shape (X : SchemaX) (o : VOpts) (t : List DNode) (hpe : (o.present && t.isEmpty) = false)
+    (hacc : obsL X.base (validate X o t).tree = obsL X.base (rfcComplete X o t)) :
+    shapeL (preFinal X o t) = shapeL (rfcComplete X o t) := by
+  rw [← shapeL_finalR X o {} (preFinal X o t), ← validate_tree_preFinal X o t hpe]
+  exact shape_of_obs X.base hacc
+
+/-- **`validate_ok_iff_valid_when_partial`** — schemas of the full language with `must`, leafref AND `when` statements (on data nodes:
+context = the node; on `choice` / `case`: inherited by the data nodes of the case, context = the data parent), on the class where the
+deferral loop of `lyd_validate_unres_when` has nothing to defer (`wi_NoTouch`: no `when` expression reaches a node that itself
+carries a `when` — decidable form `whenNoTouchB`, evaluated by the model's own `mayTouch`, which is exact for predicate-free child /
+parent paths): the instance can be built, `lyd_validate` logs no error and removes no implicit node because of a `when` **iff** the
+instance is `ValidX` (structure, `must`, leafref on the accessible tree) and EVERY `when` of every node of the accessible tree —
+explicit data and defaults in use — is true, evaluated on that tree with libyang's context node (RFC 7950 §7.21.5).
+What is NOT covered (OPEN): instances on which validation removes an implicit node whose `when` is false (RFC 7950 §7.21.5 / §8.3.2: the
+default is then not in use; the model does it and the check compares it, but the accessible tree of the specification would have to
+be the fixpoint without those nodes), and `when` expressions that look at other `when` nodes (deferral). -/
+theorem validate_ok_iff_valid_when_partial (X : SchemaX) (C : XCons) (o : VOpts) (hop : o.operational = false)
+    (hq : X.q.implicitInnerCase = false) (hqu : X.q.uniqueDefaultAlways = false) (hl : KidsLookupOk X) (hnl : NodeLookupOk X)
+    (hio : InfoOk X) (hs : FullSane X o) (hup : UniqPathsOk X) (t : List DNode)
+    (hg : goodL X X.top t = true) (hlen0 : t.length ≤ uint32Max) (hh : sheightL X.top ≤ walkFuel X t)
+    (hpe : (o.present && t.isEmpty) = false)
+    (hacc : obsL X.base (validate X o t).tree = obsL X.base (rfcComplete X o t))
+    (hnt : wi_NoTouch X C.whens (markImpl X.base C.whens (preFinal X o t))) :
+    (buildL X.base t = none ∧ (validateX X C o t).errs = [] ∧ (whenPhase X C o (preFinal X o t)).2.evs = []) ↔
+      (ValidX X C o t ∧ wi_AllTrue (xpBool C.mask X.base) X C.whens (rfcComplete X o t)) := by
+  have hfull := validate_ok_iff_valid_full X o hop hq hqu hl hnl hio hs hup t hg hlen0 hh
+  have hcc := cfgClosed_rfcComplete X o hl hio hs t hg
+  have hsh := preFinal_shape X o t hpe hacc
+  have hwhen := whenPhase_nodel_iff X C o hop (preFinal X o t) hnt
+  have htr := wi_AllTrue_shape_iff (ev := xpBool C.mask X.base) (X := X) (W := C.whens) (wi_xpBool_shape C.mask X.base) hsh
+  have hvx : ValidX X C o t ↔ (Valid X o t ∧ xpViolations X.base C (rfcComplete X o t) = []) := by
+    unfold ValidX violationsX Valid
+    simp only [hpe, Bool.false_eq_true, if_false, List.append_eq_nil_iff]
+  rw [hvx]
+  constructor
+  · rintro ⟨hb, he, hev⟩
+    have h3 := (validateX_ok_iff_w X C o t hop hpe hacc hcc hev).1 he
+    exact ⟨⟨hfull.1 ⟨hb, h3.1⟩, h3.2.2⟩, htr.1 (hwhen.1 ⟨h3.2.1, hev⟩)⟩
+  · rintro ⟨⟨hv, hx⟩, hall⟩
+    have hw := hwhen.2 (htr.2 hall)
+    have hb := hfull.2 hv
+    exact ⟨hb.1, (validateX_ok_iff_w X C o t hop hpe hacc hcc hw.2).2 ⟨hb.2, hw.1, hx⟩, hw.2⟩
 
 /-- the witness constraints with a `when` on `b` (`when "../a = 'x'"`) and on the default-bearing leaf `d` -/
 def CxpW : XCons := { whens := [(2, bytesOfString "../a = 'x'"), (3, bytesOfString "../a = 'x'")] }
